@@ -180,3 +180,35 @@ package mysql
 //@   opt cutoffsets yes
 //@   at call base.LengthEncodedInt#1 : assert 0 <= pos && pos < len(packet.data)
 //@   ensures (err == nil) <==> (field != nil)
+
+// ---- MySQL result rows from the database (C14): total on arbitrary bytes ----
+//@ func (handler *Handler) extractData(pos int, rowData []byte, field *ColumnDescription) (data []byte, n int, err error)
+//@   props C12 C14
+//@   safety
+//@   requires 0 <= pos && pos <= len(rowData)
+//@   ensures in-bounds: err == nil ==> 0 <= n && n <= len(rowData) - pos
+//@   ensures err != nil ==> data == nil && n == 0
+//@   modifies nothing
+
+//@ func fixedWidthValue(rowData []byte, pos int, n int) (data []byte, k int, err error)
+//@   props C12 C14
+//@   safety
+//@   ensures in-bounds: err == nil ==> k == n && 0 <= n && 0 <= pos && pos <= len(rowData) && n <= len(rowData) - pos && sameslice(data, rowData[pos:pos+n])
+//@   ensures err != nil ==> data == nil && k == 0
+//@   modifies nothing
+
+//@ func (handler *Handler) processBinaryDataRow(ctx context.Context, rowData []byte, fields []*ColumnDescription) (out []byte, err error)
+//@   props C12 C14
+//@   safety
+//@   noinline extractData onColumnDecryption
+//@   requires len(rowData) >= 1 && forall(j, 0, len(fields), fields[j] != nil)
+//@   loop 0 invariant 0 <= pos && pos <= len(rowData)
+//@   ensures err != nil ==> out == nil
+
+//@ func (handler *Handler) processTextDataRow(ctx context.Context, rowData []byte, fields []*ColumnDescription) (out []byte, err error)
+//@   props C12 C14
+//@   safety
+//@   noinline onColumnDecryption
+//@   requires forall(j, 0, len(fields), fields[j] != nil)
+//@   loop 0 invariant 0 <= pos && pos <= len(rowData)
+//@   ensures err != nil ==> out == nil
